@@ -41,7 +41,22 @@ def engine_run(ops, table):
     time.monotonic = lambda: clock[0]
     try:
         clock[0] = -1000.0
-        sock = GeckoUdpSocket(MockSocket())
+        class StepSocket(GeckoUdpSocket):
+            """the REAL _thread_func, one iteration per step(): its loop condition is true once per step"""
+            _budget = 0
+
+            @property
+            def isopen(self):
+                if self._budget > 0:
+                    self._budget -= 1
+                    return True
+                return False
+
+            def step(self):
+                self._budget = 1
+                with vloop.quiet():
+                    self._thread_func()
+        sock = StepSocket(MockSocket())
         tab = {}
         for (h, verb, effname) in table:
             tab.setdefault(h, {})[verb] = effname
@@ -76,12 +91,7 @@ def engine_run(ops, table):
                 clock[0] = op[1] / 1000.0
                 if op[2] is not None:
                     sock._socket.inbox.append((bytes([op[2]]), ("10.0.0.1", 10022)))
-                sock._process_send_requests()
-                sock._process_received_data()
-                for h in sock._receive_handlers:
-                    h.loop(sock)
-                sock._cleanup_handlers()
-                sock._loop_func()
+                sock.step()
                 hist.append([h.hid for h in sock._receive_handlers])
                 for h in sock._receive_handlers:
                     if h.should_remove_handler:
